@@ -1484,6 +1484,9 @@ class Folder:
                     else:
                         self._rebind(st.target.value, Sym("upd", [c, self.ev(st.target.slice, env), self._OPSYM[type(st.op)], self.ev(st.value, env)]), env)
                     return
+            if cur is None and isinstance(st.target, ast.Attribute):
+                # obj.attr op= v: read, combine, store back (aliases of a symbolic value are terms, not objects: nothing else to update)
+                cur = self.ev(ast.Attribute(value=st.target.value, attr=st.target.attr, ctx=ast.Load()), env)
             if cur is None and not isinstance(st.target, ast.Name):
                 raise Refuse("augassign target")
             val = self.ev(st.value, env)
